@@ -193,6 +193,10 @@ func (cc *ClientConnection) startTls(conn streams.Connection) (streams.Connectio
 		tlsConfig = &tls.Config{}
 	}
 	tlsConfig.ServerName = cc.host
+	if h, _, err := net.SplitHostPort(cc.host); err == nil {
+		// The upstream host comes from the URL and may carry a port; certificates name hosts
+		tlsConfig.ServerName = h
+	}
 
 	log.Tracef("[Client] Executing TLS handshake")
 	tlsConn := tls.Client(conn, tlsConfig)
